@@ -3,6 +3,7 @@
   exactly one commit notification or one silent drop. Property theorems only.
 -/
 import FileD.Lemmas.Core
+import FileD.Lemmas.StreamProc
 namespace FileD.PropsC02
 open FileD.Core
 
@@ -106,6 +107,37 @@ example : (run (init false) demoOps).map (fun s => (s.commits, s.dropped)) =
 /-- the guard of `add` refuses handing over 30 while 20 is neither handed over nor dropped -/
 example : run (init false) [.accept ⟨0, 1, 10⟩, .accept ⟨0, 2, 20⟩, .accept ⟨0, 3, 30⟩,
     .add false ⟨0, 1, 10⟩, .add false ⟨0, 3, 30⟩] = none := by decide
+
+
+/-! ### the stream / processor layer (M2) establishes M1's hand-over guard -/
+
+/-- **events of a stream are handed to the output in read order**: in every run of the
+    stream/processor model (any interleaving of put / charge / pop / attach / get / leave /
+    detach / commit / time-out with the owner's hold / drop / propagate / out steps), when an
+    event is handed to the output every earlier event of the stream was handed over before it
+    or was dropped. This is exactly the guard of `add` in M1. -/
+theorem stream_hands_over_in_order (ops : List StreamProc.Op) (s : StreamProc.SS)
+    (hr : StreamProc.run {} ops = some s) :
+    ∀ pre q post, s.outd = pre ++ q :: post → ∀ q', 1 ≤ q' → q' < q → q' ∈ pre ∨ q' ∈ s.dropped :=
+  (StreamProc.pinv_run StreamProc.pinv_init hr).ordered
+
+/-- nothing is lost inside the stream layer: every sequence number handed out by `put` is
+    handed over, dropped, or still pending (queued, in hand, held or re-injected) -/
+theorem stream_conserves (ops : List StreamProc.Op) (s : StreamProc.SS)
+    (hr : StreamProc.run {} ops = some s) :
+    ∀ q, 1 ≤ q → q ≤ s.nextSeq → q ∈ s.outd ∨ q ∈ s.dropped ∨ q ∈ StreamProc.pending s :=
+  (StreamProc.pinv_run StreamProc.pinv_init hr).cover
+
+/-- non-vacuity: a join-like run — 1 held, 2 collapsed, 3 arrives: 1 is re-injected and goes out, then 3 -/
+example : (StreamProc.run {} [.put 1, .charge, .put 2, .pop, .attach, .get 1, .hold 1, .commit 1, .get 2,
+    .drop 2, .commit 2, .put 3, .get 3, .propagate 1, .out 1, .out 3, .leave]).map (fun s => (s.outd, s.dropped)) =
+    some ([1, 3], [2]) := by decide
+
+/-- the nested-Propagate trace of the known finding is NOT a run of M2: after the re-injected
+    event 2 is collapsed downstream, the real processor takes event 5 while 4 is still in hand -/
+example : StreamProc.run {} [.put 1, .charge, .put 2, .put 3, .put 4, .put 5, .pop, .attach, .get 1, .hold 1,
+    .commit 1, .get 2, .hold 2, .commit 2, .get 3, .drop 3, .commit 3, .get 4, .propagate 2, .drop 2, .get 5] = none := by
+  decide
 
 /-! ### dead queue: the order clause is false of the unchanged code -/
 def dqWitness : List Op :=
